@@ -1,7 +1,9 @@
 """C20 — atom-map completion: correspondence + executable spec on implementation outputs."""
 import networkx as nx
 
-from common import Atom, Case, Run, call_impl, prepare, ImplError
+import random
+
+from common import Atom, Case, Run, call_impl, prepare, ImplError, input_variant, variant_extras_intact
 
 PROOFS = ["FGVerif.Proofs.C20"]
 
@@ -18,26 +20,51 @@ def mk_graph(ids, aams):
     return g
 
 
-def impl_complete(ids, aams, offset, via_its=False):
+# complete_aam / initialize_aam / ITS(graph) write the map INTO their argument: only forms that are meant to be
+# written to (extra attributes, numpy ids and map numbers), not frozen graphs or views
+VARIANT_KINDS = ("extra_attrs", "numpy")
+
+
+def formed(g, form):
+    """the graph in the input form `form` ('extra_attrs' / 'numpy' / None): common.input_variant"""
+    if not form:
+        return g
+    v, tag = input_variant(g, random.Random(0), (form,))
+    if [v.nodes[n].get("aam") for n in v.nodes] != [g.nodes[n].get("aam") for n in g.nodes] or list(v.nodes) != list(g.nodes):
+        raise AssertionError("input_variant changed what complete_aam sees (harness defect)")
+    return v
+
+
+def extras_survived(g, form, nodes, edges):
+    """the irrelevant attributes of an 'extra_attrs' variant are still there, untouched (VariantDamaged otherwise)"""
+    if form == "extra_attrs" and nodes:
+        variant_extras_intact(g, nodes, edges)
+
+
+def impl_complete(ids, aams, offset, via_its=False, form=None):
     from fgutils.utils import complete_aam
     from fgutils.its import ITS
-    g = mk_graph(ids, aams)
+    g = formed(mk_graph(ids, aams), form)
+    nodes, edges = list(g.nodes), list(g.edges)
     if via_its:
         ITS(g)
     else:
         off = "min" if offset == "min" else offset
         complete_aam(g, offset=off)
+    extras_survived(g, form, nodes, edges)
     return [g.nodes[n].get("aam") for n in g.nodes]
 
 
-def impl_initialize(ids, aams, offset):
+def impl_initialize(ids, aams, offset, form=None):
     from fgutils.utils import initialize_aam
-    g = mk_graph(ids, aams)
+    g = formed(mk_graph(ids, aams), form)
+    nodes, edges = list(g.nodes), list(g.edges)
     raised = False
     try:
         initialize_aam(g, offset=offset)
     except RuntimeError:
         raised = True
+    extras_survived(g, form, nodes, edges)
     return [[g.nodes[n].get("aam") for n in g.nodes], raised]
 
 
@@ -190,21 +217,27 @@ def run(tier, seed):
     for k in range(n_cases):
         ids, aams, offset = corpus[k] if k < len(corpus) else gen_case(rng, big=(k % 10 == 0))
         via_its = offset == "min" and rng.random() < 0.3
-        out = call_impl(impl_complete, ids, aams, offset, via_its)
+        # the FORM of the input (12%): irrelevant extra node / edge attributes (must survive the in-place completion),
+        # numpy.int64 ids and map numbers (a map that came out of an array / a table column)
+        form = rng.choice(VARIANT_KINDS) if (ids and rng.random() < 0.12) else None
+        out = call_impl(impl_complete, ids, aams, offset, via_its, form)
         woff = Atom("min") if offset == "min" else offset
         req = [Atom("C20"), Atom("complete"), woff, aams]
-        key = ("c", tuple(aams), offset) if any(a is None for a in aams) and any(a is not None for a in aams) else None
-        cases.append(Case(req, out, meta={"ids": ids, "offset": offset, "via_ITS": via_its}, nontrivial_key=key,
+        key = ("c", tuple(aams), offset, form) if any(a is None for a in aams) and any(a is not None for a in aams) else None
+        cases.append(Case(req, out, meta={"ids": ids, "offset": offset, "via_ITS": via_its, "variant": form}, nontrivial_key=key,
                           tags=("complete", "offset=%s" % ("int" if isinstance(offset, int) else offset),
-                                "via_its" if via_its else "direct", "mapped>6" if sum(a is not None for a in aams) > 6 else "mapped<=6")))
+                                "via_its" if via_its else "direct", "mapped>6" if sum(a is not None for a in aams) > 6 else "mapped<=6")
+                          + (("input_form", "variant=" + form) if form else ())))
         if k % 5 == 2:
             cases += two_step_cases(rng, ids, aams, offset)
         if k % 4 == 0:
             off = rng.randint(-2, 5)
-            out = call_impl(impl_initialize, ids, aams, off)
+            form = rng.choice(VARIANT_KINDS) if (ids and rng.random() < 0.12) else None
+            out = call_impl(impl_initialize, ids, aams, off, form)
             req = [Atom("C20"), Atom("initialize"), off, [[i, a] for i, a in zip(ids, aams)]]
-            cases.append(Case(req, out, meta={"offset": off}, nontrivial_key=("i", tuple(ids), tuple(aams), off) if ids else None,
-                              tags=("initialize", "init_raises" if any(a is not None for a in aams) else "init_ok")))
+            cases.append(Case(req, out, meta={"offset": off, "variant": form}, nontrivial_key=("i", tuple(ids), tuple(aams), off, form) if ids else None,
+                              tags=("initialize", "init_raises" if any(a is not None for a in aams) else "init_ok")
+                              + (("input_form", "variant=" + form) if form else ())))
     r.evaluate(cases)
     r.assumptions = [
         "networkx node iteration order is modelled as a list; the graph enters complete_aam only through it and the aam attribute",
@@ -217,7 +250,8 @@ def run(tier, seed):
     return r.finish(
         level="proof",
         rule="random node lists (0-40 nodes, shuffled/sparse ids) x partial maps (gaps, duplicates, negatives, dense blocks) x offset in {None,int,'min'}, "
-             "30% of the 'min' cases through ITS(graph); every 5th input also as a two-call scenario on one graph object with in-place edits between the calls; non-trivial = partial map with at least one mapped and one unmapped node, distinct by (map, offset)",
+             "30% of the 'min' cases through ITS(graph); 12% of the graphs in another FORM (extra node/edge attributes that must survive the in-place "
+             "completion, numpy.int64 ids and map numbers; tags variant=*); every 5th input also as a two-call scenario on one graph object with in-place edits between the calls; non-trivial = partial map with at least one mapped and one unmapped node, distinct by (map, offset)",
         checker_cmd="cd lean && lake build FGVerif.Proofs.C20 && lake env lean FGVerif/Audit/C20.lean",
         explanation="theorems in lean/FGVerif/Proofs/C20.lean about Model/C20.lean; model tied to fgutils.utils.complete_aam/initialize_aam by differential testing; "
                     "executable spec C20.specCheck applied to every implementation output")
@@ -231,19 +265,24 @@ def replay(path):
     def opt(x):
         return None if x == "_" else int(x)
 
+    rec = json.load(open(path))
+    meta = rec.get("meta") or {}
+    form = meta.get("variant")
+    if form:
+        print("re-applying the recorded input form: variant=%s" % form)
+
     def reimpl(req):
         op = req[1]
         if op == "complete":
             offset = "min" if req[2] == "min" else opt(req[2])
             aams = [opt(a) for a in req[3]]
-            return call_impl(impl_complete, list(range(len(aams))), aams, offset, False)
+            ids = meta.get("ids") if isinstance(meta.get("ids"), list) and len(meta["ids"]) == len(aams) else list(range(len(aams)))
+            return call_impl(impl_complete, ids, aams, offset, bool(meta.get("via_ITS")), form)
         off = int(req[2])
         ids = [int(p[0]) for p in req[3]]
         aams = [opt(p[1]) for p in req[3]]
-        return call_impl(impl_initialize, ids, aams, off)
+        return call_impl(impl_initialize, ids, aams, off, form)
 
-    rec = json.load(open(path))
-    meta = rec.get("meta") or {}
     if meta.get("two_step"):
         # re-run the whole two-call scenario on one graph object; judge the recorded call
         from common import build, Driver, Outcome
